@@ -1,4 +1,5 @@
 #!/bin/bash
+export VERIF_NO_EVIDENCE=1   # runs on a mutated tree never write /verif/evidence
 # usage: mutcheck.sh <diff> <PROP...>   : apply a seeded change to /repo, run the checks (no lean unless LEAN=1), undo
 d=$1; shift
 git -C /repo apply "$d" || { echo "APPLY FAILED $d"; exit 3; }
